@@ -43,3 +43,23 @@ theorem opCheck_fst (c : C) (i : Nat) : (opCheck c i).1 = (chanCheck (view c i))
   simp only [opCheck]; split <;> rfl
 
 end Amqp.Errors
+
+namespace Amqp.Errors
+open Amqp.ChanErr
+
+/-- a check that changes nothing leaves the connection as it was -/
+theorem unview_view (c : C) (i : Nat) (ch : Chan) (h : c.chans[i]? = some ch) : unview c i (view c i) = c := by
+  rw [view_some c i ch h]
+  cases c with
+  | mk cs ce chans ok calls =>
+    simp only [unview] at h ⊢
+    congr 1
+    apply List.ext_getElem?
+    intro j
+    by_cases hj : i = j
+    · subst hj
+      rw [getElem?_modify_eq, h]
+      cases ch; rfl
+    · rw [getElem?_modify_ne _ _ _ _ hj]
+
+end Amqp.Errors
